@@ -337,6 +337,12 @@ func cmdCheck(argv []string) int {
 			continue
 		}
 		for _, r := range reps {
+			if r[1] == "-" && r[2] != "" {
+				// "//verif:replace@Name X = -": harnesses named Name* run the real X although an
+				// unscoped directive replaces it for everybody else
+				allRepl = append(allRepl, scopedRepl{r[0], nil, r[2]})
+				continue
+			}
 			f := sp.Func(r[1])
 			if f == nil {
 				fmt.Printf("HARNESS-STALE replacement function %s not found in %s\n", r[1], pp)
@@ -359,7 +365,11 @@ func cmdCheck(argv []string) int {
 		}
 		for _, r := range allRepl {
 			if r.scope != "" && strings.HasPrefix(harness, r.scope) {
-				m[r.target] = r.fn
+				if r.fn == nil {
+					delete(m, r.target)
+				} else {
+					m[r.target] = r.fn
+				}
 			}
 		}
 		return m
